@@ -119,9 +119,12 @@ def volatile_address_inst(which, el, esz, tier):
               ('sandbox_memory_is_one_object', '__CPROVER_requires(__CPROVER_r_ok(g_sbx_mem, V_SIZE[0] + 8) && (unsigned long)g_sbx_mem == V_BASE[0] && V_SIZE[1] == 0 && V_SIZE[0] <= 4096)')]
     hm = MEM.replace('V_SIZE[0] = in_size;', 'V_SIZE[0] = in_size - 8;') + ('  __CPROVER_assume(in_size >= 64); struct %s *pp = (struct %s *)(mem + 8); unsigned long in_count; g_count = in_count; g_checked_start = 0; g_checked_bytes = 0;\n' % (TV, TV))
     leaves = ['dynamic_check', CHECK_RANGE, 'vsbx.impl_is_in_same_sandbox', 'vsbx.impl_get_unsandboxed_pointer_no_ctx', 'find_sandbox_from_example']
-    ok = '(a == 0 || (a == g_checked_start && g_checked_bytes == g_count * %d))' % esz
+    # stated on the address itself (not on what an internal helper recorded): with the count given, that many whole elements lie
+    # inside the sandbox - an address obtained by a second, unchecked read of the cell cannot satisfy this
+    okf = lambda a: '(%s == 0 || (V_IN(0, %s) && (g_count == 0 || V_IN_MI(0, MI(%s) + MI(g_count) * MI(%d) - 1))))' % (a, a, a, esz)
+    ok = okf('a')
     if which == 'buffer_address':
-        stub = ('unsigned long verifier_stub(unsigned long a)\n__CPROVER_requires(%s) /*@address_handed_out_is_the_one_whose_range_was_checked*/\n'
+        stub = ('unsigned long verifier_stub(unsigned long a)\n__CPROVER_requires(%s) /*@address_handed_out_has_count_whole_elements_inside_the_sandbox*/\n'
                 '__CPROVER_ensures(g_vcalls == __CPROVER_old(g_vcalls) + 1 && __CPROVER_return_value == a)\n__CPROVER_assigns(g_vcalls);\n' % ok)
         cl = common + [('fresh', '__CPROVER_requires(g_vcalls == 0)'), ('verifier_runs_once', '__CPROVER_ensures(g_vcalls == 1)'),
                        ('frame', '__CPROVER_assigns(g_vcalls, g_checked_bytes, g_checked_start)')]
@@ -132,7 +135,7 @@ def volatile_address_inst(which, el, esz, tier):
                     root_pick=lambda tu, fn: find_func(tu, 'copy_and_verify_buffer_address', None, lambda f, rn: '16tainted_volatile' in f.get('mangledName', '').split('30copy_and_verify_buffer_address')[0]),
                     note='pointer cell in sandbox memory, adversarial reads; element %s' % el)
     a = '(uintptr_t)$ret'
-    cl = common + [('pointer_handed_out_is_the_one_whose_range_was_checked', '__CPROVER_ensures(%s)' % ok.replace('a ==', '%s ==' % a).replace('(a', '(%s' % a)),
+    cl = common + [('pointer_handed_out_has_count_whole_elements_inside_the_sandbox', '__CPROVER_ensures(%s)' % okf(a)),
                    ('frame', '__CPROVER_assigns(g_checked_bytes, g_checked_start)')]
     h = hm + '  const char reason[2] = "r";\n  void *r = (void *)$ROOT((void *)pp, in_count, &reason);\n'
     return Inst('c09_unverified_safe_pointer_volatile_receiver_%s' % el.replace(' ', '_'), 'tainted_volatile<%s*, vsbx>& p, size_t n' % el, 'p.unverified_safe_pointer_because(n, "r");', cl, h,
@@ -164,6 +167,7 @@ def range_inst(tier):
 
 
 STRLEN = ('unsigned long vstd_strlen(const char *s)\n'
+          '__CPROVER_requires(s != 0 && __CPROVER_same_object(s, g_sbx_mem)) /*@strlen_scans_a_non_null_string_that_starts_in_sandbox_memory*/\n'
           '__CPROVER_ensures(__CPROVER_return_value == g_strlen_ret && g_strlens == __CPROVER_old(g_strlens) + 1)\n__CPROVER_assigns(g_strlens);\n')
 
 
@@ -195,15 +199,15 @@ def string_inst(kind, recv, tier):
     if kind == 'uptr':
         # buffer handed over: allocated by this call with exactly strlen+1 bytes == the range-checked length, NUL-terminated inside it
         req = ('(arg == 0 || ((void *)arg == g_new_ptr && g_news >= 1 && !__CPROVER_same_object(arg, g_sbx_mem) && g_new_bytes == g_strlen_ret + 1 && '
-               'g_new_bytes <= g_checked_bytes && arg[g_new_bytes - 1] == 0))')
+               'arg[g_new_bytes - 1] == 0))')
         stub = vstub('char *arg', req)
         extra = ['verifier_stub', 'vstd_strlen']
         post = STRLEN + stub
     else:
         # std::string(const char*, n) copies exactly n bytes; std::string(const char*) scans for a terminator, so its argument
         # must be terminated inside its own buffer: either the empty literal or the snapshot buffer with its last byte forced to NUL
-        req = ('arg.len == 0 || (arg.len + 1 <= g_checked_bytes && (((uintptr_t)arg.src == g_checked_start && arg.len == g_strlen_ret) || '
-               '(g_news >= 1 && (void *)arg.src == g_new_ptr && arg.len + 1 <= g_new_bytes)))')
+        req = ('arg.len == 0 || ((arg.len == g_strlen_ret && V_IN(0, (uintptr_t)arg.src) && V_IN_MI(0, MI((uintptr_t)arg.src) + MI(arg.len))) || '
+               '(g_news >= 1 && (void *)arg.src == g_new_ptr && arg.len + 1 <= g_new_bytes))')
         stub = vstub('struct M_string arg', req)
         post = (STRLEN + 'struct M_string vstd_string_from(const char *s, unsigned long n)\n__CPROVER_requires(n == 0 || __CPROVER_r_ok(s, n)) /*@string_from_reads_n_bytes*/\n'
                 '__CPROVER_ensures(__CPROVER_return_value.src == s && __CPROVER_return_value.len == n)\n__CPROVER_assigns();\n'
